@@ -18,8 +18,9 @@
 (*             were invoked is never told; it only ends when its client goes away).                         *)
 (*             "SignalPanicsDebugThread" (the select branch for the LSP shutdown signal breaks out without  *)
 (*             completing the selected operation: crossbeam panics, the debug thread dies).                  *)
-(*             "BusyStepBlocksJoin" (a session thread busy inside a step that never returns cannot be joined;  *)
-(*             latent like JoinBlockedInAccept). "RendezvousSignal" is HYPOTHETICAL (capacity-0 handler channel): *)
+(*             "UnboundedJoin" (DebugServer::join waits for the thread without a bound: a session thread   *)
+(*             busy inside a step that never returns, or one nobody wakes, keeps the process alive; latent). *)
+(*             "RendezvousSignal" is HYPOTHETICAL (capacity-0 handler channel): *)
 (*             it shows that Terminates constrains the shutdown handshake in the busy state.                       *)
 (* With a deviation removed the model is the candidate repair: no unique ownership needed to join the IO   *)
 (* threads; accept is woken when the flag is set.                                                          *)
@@ -54,19 +55,21 @@ CGoneBusy == dapc = "connected" /\ s.d = "busy" /\ dapc' = "gone" /\ UNCHANGED <
 (* main thread *)
 Drain   == s.m = "drain" /\ Srv(MLeft(s))             \* the reader thread stops after `exit`: the receiver closes
 Unwrap  == s.m = "left" /\ Srv(MUnwrap(s, Deviations))
-SetFlag == s.m = "io" /\ Srv(MSetFlag(s))
-Join    == MJoinEn(s) /\ Srv(MJoin(s))
+SetFlag == s.m = "io" /\ Srv(MSetFlag(s, Deviations))
+Join    == MJoinEn(s, Deviations) /\ Srv(MJoin(s))
 (* debug thread *)
 Top     == DTopEn(s) /\ s.exit = -1 /\ Srv(DTop(s))
 Bind    == s.d = "new" /\ s.exit = -1 /\ Srv(DBind(s))
-Reg     == DRegEn(s) /\ s.exit = -1 /\ Srv(DReg(s))
-Sig     == s.d = "session" /\ (s.sig \/ (s.flag /\ "SessionIgnoresFlag" \notin Deviations)) /\ s.exit = -1 /\ Srv(DSig(s, Deviations))
+Reg     == DRegEn(s) /\ s.exit = -1 /\ Srv(DReg(s, Deviations))
+Sig     == s.d = "session" /\ s.sig /\ s.exit = -1 /\ Srv(DSig(s, Deviations))
 Drop    == s.d = "ending" /\ s.exit = -1 /\ Srv(DDrop(s))
-Wake    == s.d = "accept" /\ s.flag /\ "JoinBlockedInAccept" \notin Deviations /\ s.exit = -1 /\ Srv(DWake(s))
-BusyWake == s.d = "busy" /\ s.flag /\ "BusyStepBlocksJoin" \notin Deviations /\ s.exit = -1 /\ Srv(DBusyWake(s))
+(* repaired join: main connects to the debug port itself, so a thread blocked in accept() gets a (short-lived) session *)
+Wake    == s.d = "accept" /\ s.flag /\ s.m = "join_dbg" /\ "JoinBlockedInAccept" \notin Deviations /\ s.exit = -1 /\ Srv(DAccept(s))
+(* ... and that session ends as soon as the waker closes its socket, if it was not told already *)
+WakeGone == s.d = "session" /\ s.flag /\ dapc # "connected" /\ s.exit = -1 /\ Srv(DEndSess(s))
 
 MainNext == Drain \/ Unwrap \/ SetFlag \/ Join
-DbgNext  == Top \/ Bind \/ Reg \/ Sig \/ Drop \/ Wake \/ BusyWake
+DbgNext  == Top \/ Bind \/ Reg \/ Sig \/ Drop \/ Wake \/ WakeGone
 LspNext  == CInit \/ CShutdown \/ CExit \/ CClose
 DapNext  == CConnect \/ CLaunch \/ CPause \/ CGone \/ CStepBusy \/ CGoneBusy
 Next == MainNext \/ DbgNext \/ LspNext \/ DapNext
@@ -82,7 +85,8 @@ CleanExit == Terminated => \/ s.exit = 0
 Terminates == <>Terminated
 (* the same, weakened only by the recorded witness: the panic of the unwrap with a shared context *)
 UnwrapWitness == s.m = "panicked" /\ s.refs > 1 /\ s.exit = 101
-CleanExit_impl == CleanExit \/ UnwrapWitness
+DeadJoinWitness == s.m = "panicked" /\ s.d = "dead" /\ s.exit = 101
+CleanExit_impl == CleanExit \/ UnwrapWitness \/ DeadJoinWitness
 TypeOK == s.refs \in 1..5 /\ s.exit \in {-1, 0, 1, 101}
 DebugThreadAlive == s.d # "dead"
 (* vacuity *)
